@@ -1,11 +1,16 @@
 package pipes
 
 import (
+	"context"
 	"fmt"
 	"io"
 	"log/slog"
 	"strconv"
 	"testing"
+	"testing/synctest"
+
+	"github.com/fogfish/golem/pipe/v2"
+	"verif/harness/bubble"
 
 	"pgregory.net/rapid"
 	"verif/harness/vk"
@@ -258,6 +263,105 @@ func check(t *testing.T, ft interface{ Fatalf(string, ...any) }, prop, test stri
 
 func TestC05(t *testing.T) {
 	rapid.Check(t, func(rt *rapid.T) { check(t, rt, "C05", "TestC05", genC05(rt), 1) })
+}
+
+// TestC05Seq: Seq/ToSeq are the identity, alone and around a chain of stages (the suite's own usage pattern,
+// here over generated inputs and stage chains, inside a bubble so that a stage that never closes is a verdict).
+func TestC05Seq(t *testing.T) {
+	rapid.Check(t, func(rt *rapid.T) {
+		xs := rapid.SliceOfN(rapid.IntRange(-5, 20), 0, 24).Draw(rt, "xs")
+		chain := rapid.SliceOfN(rapid.SampledFrom([]string{"map", "filter", "take", "takeWhile", "fmap"}), 0, 4).Draw(rt, "chain")
+		sc := &Scenario{Prop: "C05", Stage: "seq", In: [][]int{xs}, Mode: "pure"}
+		genFunc(rt, sc)
+		sc.N = rapid.IntRange(0, len(xs)+2).Draw(rt, "n")
+		for _, c := range chain {
+			sc.Script = append(sc.Script, Move{K: c})
+		}
+		msg := ""
+		b := bubble.Run(t, func() { msg = runSeq(sc) })
+		if msg == "" {
+			msg = b
+		}
+		vk.Record(sc, len(xs) >= 2 && len(chain) >= 1, "stage=seq", "chain="+strconv.Itoa(len(chain)))
+		if msg != "" {
+			vk.Fail("C05", "TestC05Seq", "", sc, msg)
+			rt.Fatalf("%s", msg)
+		}
+	})
+}
+
+func runSeq(sc *Scenario) string {
+	xs := sc.In[0]
+	in := pipe.Seq(xs...)
+	if cap(in) != len(xs) || len(in) != len(xs) {
+		return fmt.Sprintf("Seq(%d elements) has len %d cap %d", len(xs), len(in), cap(in))
+	}
+	ctx, cancel := context.WithCancel(context.Background())
+	defer cancel()
+	want := append([]int{}, xs...)
+	cur := in
+	for _, m := range sc.Script {
+		switch m.K {
+		case "map":
+			cur = pipe.StdErr(pipe.Map(ctx, cur, pipe.Pure(sc.mapf)))
+			for i := range want {
+				want[i] = sc.mapf(want[i])
+			}
+		case "filter":
+			cur = pipe.Filter(ctx, cur, pipe.Pure(sc.pred))
+			w := want[:0:0]
+			for _, x := range want {
+				if sc.pred(x) {
+					w = append(w, x)
+				}
+			}
+			want = w
+		case "take":
+			cur = pipe.Take(ctx, cur, sc.N)
+			want = want[:min(sc.N, len(want))]
+		case "takeWhile":
+			cur = pipe.TakeWhile(ctx, cur, pipe.Pure(sc.pred))
+			k := 0
+			for k < len(want) && sc.pred(want[k]) {
+				k++
+			}
+			want = want[:k]
+		case "fmap":
+			cur = pipe.StdErr(pipe.FMap(ctx, cur, pipe.LiftF(func(ctx context.Context, x int, out chan<- int) error {
+				for _, y := range sc.fan(x) {
+					select {
+					case out <- y:
+					case <-ctx.Done():
+						return nil
+					}
+				}
+				return nil
+			})))
+			var w []int
+			for _, x := range want {
+				w = append(w, sc.fan(x)...)
+			}
+			want = w
+		}
+	}
+	res := make(chan []int, 1)
+	go func() { res <- pipe.ToSeq(cur) }()
+	got := <-res // a chain that never closes deadlocks the bubble, which is reported
+	if got == nil {
+		return "ToSeq returned a nil slice"
+	}
+	if len(got) != len(want) {
+		return fmt.Sprintf("ToSeq(chain %v over Seq(%v)) = %v, list functions give %v", sc.Script, xs, got, want)
+	}
+	for i := range got {
+		if got[i] != want[i] {
+			return fmt.Sprintf("ToSeq(chain %v over Seq(%v)) = %v, list functions give %v", sc.Script, xs, got, want)
+		}
+	}
+	// Take/TakeWhile may leave upstream stages blocked on a full output: cancel ends them (bubble exit checks the leak)
+	cancel()
+	synctest.Wait()
+	return ""
 }
 
 func TestC06(t *testing.T) {
